@@ -73,9 +73,16 @@ MayPlace(a, fi, b) ==
 HasMarker(tok) == \E j \in 1..(Len(tok) - 1) : SubSeq(tok, j, j + 1) \in {"--", "/*", "*/"}
 \* the window is free of the input classes of the known scanner deviations
 PlainTokens(w) == \A j \in 1..NTok(w) : ~HasMarker(Wins[w].toks[j])
-\* no change at a boundary inside a keyword the implementation matches as one literal
+\* no change at a boundary in the input class of a known layout deviation of the implementation
+\* (inside a keyword it matches as one literal, inside CLASS.&field, behind END SEQUENCE ENUMERATED WITH)
 NoAffectedBoundaryChanged ==
-  \A q \in 1..Len(gCh) : ~InAffectedKeyword(Wins[gW].toks[gCh[q][1]], Wins[gW].toks[gCh[q][1] + 1])
+  \A q \in 1..Len(gCh) :
+    LET b == gCh[q][1]
+        t == Wins[gW].toks
+    IN /\ ~InAffectedKeyword(t[b], t[b + 1])
+       /\ t[b] \notin SpaceHungryWords
+       /\ ~(t[b] = "." /\ FirstCh(t[b + 1]) = "&")
+       /\ ~(t[b + 1] = "." /\ b + 2 <= Len(t) /\ FirstCh(t[b + 2]) = "&")
 
 LayInit ==
   /\ gW \in {w \in 1..Len(Wins) : Wins[w].bfs \/ ~OnlyBfs}
